@@ -14,7 +14,7 @@ EXPLANATION = (
     "every element of the window. This evaluates a text file of the source tree; it does not run anthem. CHAIN: in Display for Problem the "
     "symbol-order axioms are written for consecutive pairs of the sorted vector of self.symbols() - the same source the declarations use - with "
     "the smaller symbol on the left of p__less__. TRANS: transition axioms are forall X (hp(X) -> tp(X)) for every predicate of both programs (C03). "
-    "OWN-AXIOMS: the only axiom-role text written by Display for Problem itself is the symbol order; everything else comes from the task's formulas.")
+    "OWN-AXIOMS: the only axiom-role text written by Display for Problem itself is the symbol order; everything else comes from the task's formulas. SHARED: the collectors behind Problem::symbols reach every place a symbolic term can occur (C09's collector obligations); IDENT: derived equality of the collected items.")
 UNDECIDED = ["that Rust's byte order on the (possibly `__s`-renamed) identifiers is the standard order of the original symbols "
              "(renaming `a` to `a__s` can invert its position relative to `a0`; observed, not decided)",
              "arithmetic facts of $int are the prover's, not anthem's"]
